@@ -34,6 +34,26 @@ def natural_scripts(quick):
                    {'op': 'set', 'var': 'w', 'attr': 'user_state', 'value': 'parent', 'tag': 'setter'},
                    {'op': 'get', 'var': 'w', 'attr': 'user_state', 'tag': 'state-after-setter'}]
             out.append({'script': sc, 'kind': kind, 'init': init, 'm': m, 'ending': ending, 'part': 'natural'})
+    # the last assignment resets the state to None / a falsy value; an exception which cannot be pickled ends the work
+    for kind in ('T', 'P', 'R', 'PT', 'PP', 'PR'):
+        pers = len(kind) == 2
+        for last, ending in (('none', 'return'), ('none', 'raise'), ('falsy', 'return'), (None, 'raise-unpicklable')):
+            kwargs = {'m': 1, 'ending': ending}
+            if last:
+                kwargs['last'] = last
+            sc = [{'op': 'create', 'var': 'w', 'kind': kind, 'wcls': 'State', 'target': 't_ret_now', 'init_state': [1], 'kwargs': kwargs}]
+            if pers:
+                sc += [{'op': 'call', 'var': 'w', 'method': 'enqueue', 'args': []}]
+                if ending == 'return':
+                    sc += [{'op': 'call', 'var': 'w', 'method': 'enqueue', 'args': []}]
+            sc += [{'op': 'call', 'var': 'w', 'method': 'wait', 'args': [10]},
+                   {'op': 'get', 'var': 'w', 'attr': 'user_state', 'tag': 'state-first'},
+                   {'op': 'get', 'var': 'w', 'attr': 'has_error', 'tag': 'has_error'},
+                   {'op': 'get', 'var': 'w', 'attr': 'user_state', 'tag': 'state-after-accessor'},
+                   {'op': 'set', 'var': 'w', 'attr': 'user_state', 'value': 'parent', 'tag': 'setter'},
+                   {'op': 'get', 'var': 'w', 'attr': 'user_state', 'tag': 'state-after-setter'}]
+            exp = None if last == 'none' else (0 if last == 'falsy' else ['assigned', 1])
+            out.append({'script': sc, 'kind': kind, 'init': [1], 'm': 1, 'ending': ending, 'part': 'natural', 'last': last, 'expect_state': [exp]})
     # a final state much bigger than the socket buffers, read slowly by the parent (the child process is long gone by then)
     for kind in ('R', 'PR'):
         for size in ((1 << 20,) if quick else (208 * 1024 + 1, 1 << 20, 4 << 20)):
@@ -155,6 +175,8 @@ def judge_natural(case, obs):
         ok = isinstance(got, dict) and got.get('len') == 2 and got.get('head') == 'big' and got.get('size') == case['big']
         return [] if ok else [('big-state-not-synchronised-slow-reader', {'got': str(t['state-first'])[:200], 'expected_size': case['big']})]
     exp = ['assigned', case['m']] if case['m'] > 0 else case['init']
+    if 'expect_state' in case:
+        exp = case['expect_state'][0]
     first = t['state-first']
     if first.get('ret', 'X') != exp:
         # is it just lazy (fixed by touching another accessor)?
@@ -282,7 +304,7 @@ def run(ctx):
                           detail, 'user_state synchronised at end of life, and only then', engine='SEQ' if 'script' in case else 'LAND')
     for case, obs in zip(nat, res[:len(nat)]):
         ctx.count()
-        ctx.distinct(('nat', case['kind'], repr(case['init']), case['m'], case['ending'], case.get('big')))
+        ctx.distinct(('nat', case['kind'], repr(case['init']), case['m'], case['ending'], case.get('big'), case.get('last')))
         v = judge_natural(case, obs)
         ctx.outcome('natural:%s:%s' % (case['kind'], v[0][0] if v else 'ok'))
         report(case, v, 'SEQ/%s/natural-%s' % (case['kind'], case['ending']), obs)
